@@ -171,26 +171,42 @@ Theorem C10_enabled_macro : forall f lvl c,
 Proof. exact enabled_macro. Qed.
 Print Assumptions C10_enabled_macro.
 
-(** With the cargo feature `log` (and `log-always`): enabled -> still exactly once; disabled -> nothing reaches the
-    collector, and the expressions are evaluated (once) exactly when the log-only code hands the fields to the `log`
-    crate ([spec_log_formats]: documented behaviour, property C18) - never once a dispatcher has been set, unless
-    `log-always`.  The log-only conditions are read from `if_log_enabled!` / `__tracing_log!` under each feature set. *)
+(** With the cargo feature `log` (and `log-always`) the `log` side is one more filtering stage: enabled -> still exactly
+    once; disabled -> nothing reaches the collector, and the expressions are evaluated (once) exactly when the log record
+    is ACTUALLY BUILT ([spec_log_formats]: level within log's static cap, no dispatcher ever set unless `log-always`, level
+    within `log::max_level()`, the logger's `enabled` accepts) - what `log` then does with it is property C18.  The
+    log-only conditions of the model are read from `if_log_enabled!` / `__tracing_log!` under each feature set.
+    Hypothesis: not the known finding F101 (a disabled SPAN builds its value set before `Span::log` makes the
+    max_level / enabled tests). *)
 Theorem C10_lazy_with_log : forall ls inv c, wf_inv inv = true ->
+  known_F101 ls (i_kind inv) (guard c (i_level inv)) = false ->
   exists o, run_log ls inv c = Some o
     /\ (guard c (i_level inv) = true -> o_ticks o = spec_ticks (i_fields inv) /\ o_delivered o <> None)
     /\ (guard c (i_level inv) = false -> o_delivered o = None
-         /\ o_ticks o = (if spec_log_formats ls (i_kind inv) then spec_ticks (i_fields inv) else []))
+         /\ o_ticks o = (if spec_log_formats ls then spec_ticks (i_fields inv) else []))
     /\ (l_mode ls = LogOn -> l_dispatch_ever ls = true -> guard c (i_level inv) = false -> o_ticks o = []).
 Proof. exact lazy_with_log. Qed.
 Print Assumptions C10_lazy_with_log.
 
+(** F101 is real in the model of the current source: span, `log` on, no dispatcher ever, the logger rejecting. *)
+Theorem C10_F101_refuted :
+  wf_inv f101_inv = true /\ guard f101_coll (i_level f101_inv) = false /\ spec_log_formats f101_ls = false
+  /\ known_F101 f101_ls (i_kind f101_inv) false = true
+  /\ option_map o_ticks (run_log f101_ls f101_inv f101_coll) = Some [0]
+  /\ run_log f101_ls f101_inv f101_coll <> Some (spec_outcome_log f101_ls f101_inv false).
+Proof. exact F101_refuted. Qed.
+Print Assumptions C10_F101_refuted.
+
 Example C10_lazy_with_log_nonvacuous :
   let off := mk_coll 5 5 Never true in
+  (* the hypothesis holds for every event, and for spans whenever the log record is built *)
+  known_F101 (mk_ls LogOn true false true false) MEvent false = false /\
+  known_F101 (mk_ls LogOn true false true true) MSpan false = false /\
   (* `log` on, no dispatcher ever set, logger wants it: a disabled event evaluates its fields (for the log record) *)
   option_map o_ticks (run_log (mk_ls LogOn true false true true) ex_inv off) = Some [3; 4; 0; 1; 2] /\
-  (* ... not when the logger declines, but a disabled SPAN does even then *)
+  (* ... not when the logger declines or the level is above log::max_level() *)
   option_map o_ticks (run_log (mk_ls LogOn true false true false) ex_inv off) = Some [] /\
-  option_map o_ticks (run_log (mk_ls LogOn true false false false) (mk_inv MSpan "" 3 false ex_fields) off) = Some [3; 4; 0; 1; 2] /\
+  option_map o_ticks (run_log (mk_ls LogOn true false false true) ex_inv off) = Some [] /\
   (* ... and never once a dispatcher has been set *)
   option_map o_ticks (run_log (mk_ls LogOn true true true true) ex_inv off) = Some [] /\
   (* enabled: once, whatever the log side says *)
